@@ -44,7 +44,7 @@ pub fn replay(path: &str) -> i32 {
             };
             println!("position: {}", g.to_fen());
             let keymap = KeyMap::new();
-            let ctx = Ctx { run, mon: Mon::for_prop(&prop), keymap: &keymap, see_values: mo::probe_see_values() };
+            let ctx = Ctx { fen_crosscheck: std::sync::atomic::AtomicBool::new(true), run, mon: Mon::for_prop(&prop), keymap: &keymap, see_values: mo::probe_see_values() };
             let mut c = mo::Counts::new();
             let pairs = mo::check_state(&ctx, &p, &g, &origin, &mut c);
             if ctx.mon.needs_transitions() {
